@@ -48,6 +48,24 @@ CLAIMED.update({
  "C06": dict(level="model_checking", tech=MC, text="Same search as C05 with the policy monitors: only Forbid Jobs are refused and only at the limit, Enqueue Jobs start in creation order among queued+due+visible Jobs, Allow Jobs and admissible Enqueue/Forbid Jobs never remain queued at rest.", note=QW, ref="4 C06"),
  "C07": dict(level="model_checking", tech=MC + "; clock advanced to every startAfter, armed-timer oracle", text="Same search as C05 with owned and independent Jobs carrying startAfter in {past, now, +5s, +90s}: no start write before startAfter at the simulated clock; a Job blocked only by time has a deferred sync armed no later than startAfter+1s; at rest after the time passed nothing due and admissible is queued.", note=QW, ref="4 C07"),
 })
+ENUM = "exhaustive enumeration of a stated finite input alphabet through the real functions, compared with an independent reference model"
+CLAIMED.update({
+ "C14": dict(level="exploration", tech=ENUM,
+   text="withCount 1..512 (thorough 5000), all key lists of length <= 4 over {a,b,ab,ba,a-b} (with duplicates), all matrices with <= 3 axes x <= 3 values over {1,2,12,21} (with duplicates): for every spec admission accepts, the expansion must be the reference set (deterministic over repetitions), index hashes / task names / status slots must be distinct, and NewPod for every index must carry exactly that index's variables.",
+   note="Order of the expansion is only required to be deterministic (as the property states). Sizes beyond the stated N and other value alphabets are not covered.", ref="4 C14"),
+ "C16": dict(level="model_checking", tech="exhaustive enumeration of a field-presence lattice of raw admission requests driven through the real mutating webhooks as a transition system (create -> resubmit -> update), patch applied with the JSON-patch library the API server uses",
+   text="~43000 raw Job requests (every optional field absent/zero/set, configName none/existing/with options/missing, option values json/yaml/junk, explicit substitutions, labels, annotations, finalizers) and 48 JobConfig shapes x 8 update kinds: the returned patch applied to the raw request must equal the object the real patcher produces, re-admission must be a no-op, a per-field oracle checks finalizer/type/ttl/maxAttempts/pendingTimeout/restartPolicy defaults, configName expansion (template, ownerRef, UID label, policy default, substitution precedence) and lastUpdated stamping exactly on schedule creation/change.",
+   note="Requests always contain a spec object. The raw requests are what a client submits; API-server side defaulting/pruning by the CRD schema is not modelled.", ref="4 C16"),
+ "C17": dict(level="exploration", tech=ENUM + " (validator . mutator . cron scheduler . job builder . pod builder composed)",
+   text="~4000 cron expressions (every field atom * / 5 / */5 / 1-3 / 1,2 / H / H/5 / L / ? / junk over 5-7 fields, one field at a time plus pairs) x 16 cron dynamic configs, 16 timezones x 3 expressions, 800 option/parallelism/maxAttempts shapes: every JobConfig admission accepts must load in cronschedule.New next to a healthy JobConfig (which must stay scheduled), Bump, instantiate into a Job that passes real admission, and build a Pod for every index. Update immutability: 20 immutable edits alone, in all pairs and combined with a harmless edit, on 6 base Jobs (started x kill none/past/future), plus startPolicy and killTimestamp rules.",
+   note="Finite grammar-bounded alphabet; boundary killTimestamp == now is not asserted either way.", ref="4 C17"),
+ "C18": dict(level="exploration", tech=ENUM + "; Go map iteration order owned by folding single-entry calls of the real function over every permutation",
+   text="All five option types x config variants (required, default present/absent/whitespace, trim, allowCustom, values, delimiter, bool formats, date formats) x 22 submitted values (absent, null, empty, valid, custom, wrong type, lists, variable syntax): evaluation must reject or yield exactly the reference value, and an absent value must equal MakeDefaultOptions. Substitution determinism: every map of 2-3 (thorough 4) entries over values containing other variables x 5 targets is folded in every order through the real SubstituteVariables; on every order-sensitive input the real multi-entry call must return one result over 64 repetitions. Precedence explicit > option value > JobConfig default > context is checked in the Pod built from a Job admitted by the real webhooks.",
+   note="The repeated call on order-sensitive inputs relies on the Go runtime's randomised map iteration to expose an unordered fold (probability of a miss 2^-63 per input); which inputs are order-sensitive is decided exhaustively.", ref="4 C18"),
+ "C19": dict(level="model_checking", tech="exhaustive enumeration of event sequences (<= 4, thorough 5) over an 11-event alphabet on the real ConfigManager + ConfigMap/Secret loaders (events enter through the real handleUpdate), reading all three config kinds after every event, compared with a layered reference model with last-known-good",
+   text="(a) every field of the three kinds x ConfigMap in {unset, zero, non-zero} x Secret in {unset, zero, non-zero}, and all ordered pairs of fields across and within sources; (b) all sequences of good / empty / junk-YAML / wrong-type / other-name / bad-base64 updates to either source: after every event Jobs(), JobConfigs(), Cron() must equal the per-field highest-priority setter, or the last good typed value when the merged content is undecodable, never an error after a good value, never a mixture.",
+   note="Informers of the loaders are bypassed (Start is a no-op wrapper; the real event handler is called through a verif-tagged accessor). Readers are polled after every event, so last-known-good means last good state.", ref="4 C19"),
+})
 PENDING_REASON = "check not built yet in this session (planned, see DESIGN.md section 4)"
 
 props = [json.loads(l) for l in open("/verif/properties.jsonl")]
